@@ -19,7 +19,7 @@ import (
 
 // Op is one move of a history (JSON = the replay file format, one op per line).
 type Op struct {
-	Kind   string        `json:"op"` // conf aspec asub akey arng resv upd rel rels admres admunres deliver restart
+	Kind   string        `json:"op"` // conf aspec asub akey arng resv upd rel rels admres admunres deliver isync restart
 	Conf   Conf          `json:"conf,omitempty"`
 	Key    string        `json:"key,omitempty"`
 	New    string        `json:"new,omitempty"`
@@ -215,6 +215,7 @@ func (w *World) Exec(op Op) Step {
 	var err error
 	var ips []net.IP
 	crashed := false
+	synced := 0
 	var newConf []PoolInfo
 	w.Deco.Arm(op.Plan)
 	run := func(f func()) {
@@ -291,17 +292,10 @@ func (w *World) Exec(op Op) Step {
 		}
 	case "deliver":
 		if len(w.Pending) > 0 {
-			e := w.Pending[0]
-			w.Pending = w.Pending[1:]
-			o := objFor(e.IP, e.Key, e.Policy, true)
-			run(func() {
-				if e.Assign {
-					w.handler.OnAdd(o)
-				} else {
-					w.handler.OnDelete(o)
-				}
-			})
+			run(func() { w.deliverOne() })
 		}
+	case "isync":
+		run(func() { synced = w.InformerSync() })
 	case "restart":
 		w.Restart()
 	default:
@@ -463,6 +457,14 @@ func (w *World) Exec(op Op) Step {
 		st.Impl = head
 	case "deliver":
 		st.Line, st.Impl = "deliver", "delivered"
+	case "isync":
+		// for the model an informer sync is the delivery of every pending event (its reload reads the store, fact
+		// reloadListsApiserver, so the informer's cache is not part of its state)
+		var ls, is []string
+		for i := 0; i < synced; i++ {
+			ls, is = append(ls, "deliver"), append(is, "delivered")
+		}
+		st.Line, st.Impl = strings.Join(ls, "\n"), strings.Join(is, "\n")
 	case "restart":
 		st.Line, st.Impl = "restart", "ok"
 	}
